@@ -25,7 +25,7 @@ type case = {
 let alt_groups (mix : string) (groups : string list list) : string list list option =
   let kind g = match g with k :: _ -> k | [] -> "" in
   match mix with
-  | "C07" -> Some (List.filter (fun g -> kind g <> "b" && kind g <> "X") groups)
+  | "C07" -> Some (List.filter (fun g -> kind g <> "b" && kind g <> "X" && kind g <> "Y") groups)
   | "C08" -> Some (List.filter (fun g -> kind g <> "R") groups)
   | "C09" ->
     let rec split pre = function
@@ -83,6 +83,15 @@ let parse (inp : string list) : case =
              | "X", f :: _ -> { e with a_frame = nz f }
              | _ -> e) in
            push g (Mop (k, OpP e)))
+      | "Y" :: n :: ep :: cr :: seq :: lam :: fr :: ps ->
+        let n = int_of_string n in
+        if Hashtbl.mem defs n then push g Nodef else
+        (match mk_ev n (nz ep) (nz cr) (nz seq) (nz lam) (nz fr) (List.map int_of_string ps) with
+         | Some e ->
+           if not (Hashtbl.mem name_of (Z.to_string (z_of_n e.a_id))) then
+             Hashtbl.replace name_of (Z.to_string (z_of_n e.a_id)) n;
+           push g (Mop ("Y", OpP e))
+         | None -> push g Nodef)
       | ("B" | "b") as k :: ep :: cr :: seq :: lam :: ps ->
         (match mk_ev (-1) (nz ep) (nz cr) (nz seq) (nz lam) N0 (List.map int_of_string ps) with
          | Some e -> push g (Mop (k, OpB e))
@@ -187,7 +196,7 @@ let parse_obs c (kind : string) (toks : string list) : obs =
   | [s] when String.length s = 2 && s.[0] = 's' -> ObsSkip (nz (tl1 s))
   | _ ->
   match kind, toks with
-  | ("P" | "X"), r :: rest ->
+  | ("P" | "X" | "Y"), r :: rest ->
     let bl, rest' = parse_blocks c rest in
     let res = if r = "ok" then None else Some (err_of_tok r) in
     (match parse_le rest' with
@@ -260,10 +269,10 @@ let spec_on (pid : string) c (mg : string list list) (ag : string list list) : s
       why = "c03_trace" }
   | "C04" ->
     { ok = chk c04_trace pm;
-      nontriv = List.exists (fun (k, _, g) -> (k = "X" && g <> [] && List.hd g = "wf") || (k = "B")) pm;
+      nontriv = List.exists (fun (k, _, g) -> ((k = "X" || k = "Y") && g <> [] && List.hd g = "wf") || (k = "B")) pm;
       why = "c04_trace" }
   | "C07" ->
-    let kept = List.filter (fun (k, _, _) -> k <> "b" && k <> "X") pm in
+    let kept = List.filter (fun (k, _, _) -> k <> "b" && k <> "X" && k <> "Y") pm in
     let inj = List.length pm - List.length kept in
     { ok = (c.alt = None) || (groups_of kept = groups_of pa);
       nontriv = inj > 0 && (has_block pm || List.exists (fun (k, _, _) -> k = "B") pm);
